@@ -1,4 +1,5 @@
 import Swat4.Lemmas.Rest
+import Swat4.Lemmas.Styles
 import Swat4.Model.Rest
 import Swat4.Model.Styles
 import Swat4.Spec.RestSpec
@@ -262,6 +263,32 @@ example : addrFromString (Bytes.ofAscii "01.1.1.1:10480") = .err .invalidIP := b
 example : addrFromString (Bytes.ofAscii "1.1.1.1:65536") = .err .invalidPort := by decide
 example : addrFromString (Bytes.ofAscii "::ffff:1.1.1.1:80") = .err .invalidIP := by decide
 example : andThenPublic (addrFromString (Bytes.ofAscii "10.1.1.1:10480")) = .err .invalidPublicIP := by decide
+
+/-! ## markup -/
+
+/-- **`hostname_html` is inert for every hostname.**  For every sequence of Unicode scalar values
+(`List Char`: this is the valid-UTF-8 hypothesis — heartbeat values pass `bytes.ToValidUTF8`, probe
+values are latin-1 decoded) the reference tokenizer accepts `ToHTML`'s output: it consists only of
+`<span style="color:#HHHHHH;">`, `</span>`, the five entities of `html.EscapeString`, and characters
+other than `<`, `>`, `&`, `"`, `'`.  Any length, any nesting of brackets.
+
+Route: after escaping the text is a sequence of plain characters and entities (`escape_inert`);
+brackets are plain and occur in no tag or entity, so a text can be cut at any bracket
+(`cut_at_bracket`); passes 1 and 3 delete stretches `[ … ]` (`m1_spec`, `m3_spec`), pass 2 rewrites
+`[c?HHHHHH]text` up to the next `[` into tag + text + tag (`m2_spec`).  Balance of spans is not
+claimed: `[c=[c=ff0000]ab]cd` ↦ `cd</span>` (pass 3 deletes an opening tag whose text contains `]`). -/
+theorem toHTML_inert (h : List Char) : RestSpec.Inert (Styles.toHTML h) = true :=
+  Styles.inert_of_inertp _ (Styles.toHTML_inertp h)
+
+/-- non-vacuity: the repaired defect, the unbalanced case, and a text the tokenizer rejects -/
+example : Styles.toHTML "[c=ff0000]<script>alert(1)</script>".toList =
+    "<span style=\"color:#ff0000;\">&lt;script&gt;alert(1)&lt;/script&gt;</span>".toList := by decide
+example : Styles.toHTML "[c=[c=ff0000]ab]cd".toList = "cd</span>".toList := by decide
+example : Styles.toHTML "[b]a[\\U]\"[C=00ff7F]x[\\c]&".toList =
+    "a&#34;<span style=\"color:#00ff7F;\">x</span>&amp;".toList := by decide
+example : RestSpec.Inert "<span style=\"color:#ff0000;\"><script>".toList = false := by decide
+example : RestSpec.Inert "a&b".toList = false := by decide
+example : RestSpec.Inert "<span style=\"color:#ff000;\">".toList = false := by decide
 
 /-! ## facts read from the source -/
 
